@@ -113,6 +113,6 @@ func ruleColumnsFromLineOffset(w *World, r *Report) {
 			}
 		}
 	}
-	r.Expect("whole-line indentation measurements in block parsers", n, 8)
+	r.Expect("whole-line indentation measurements in block parsers", n, 5)
 	r.Quiet("C02-T: %d TabWidth calls in block parsers", nTab)
 }
